@@ -19,23 +19,21 @@ def extract(g, X):
 
     def rpos():
         b = X.fn_body(types, "raw_image_data")
-        m = re.search(r"rposition\s*\(\s*\|\s*(\w+)\s*\|\s*match\s+\1\s*\{(.*?)\}\s*\)", b, flags=re.S)
-        if not m:
-            raise ValueError("rposition closure not found")
-        arms, default = [], None
-        for am in re.finditer(r"(StreamFilter::(\w+)(?:\s*\([^)]*\))?|_)\s*=>\s*(true|false)", m.group(2)):
-            if am.group(1) == "_":
-                default = am.group(3)
-            else:
-                if am.group(2) not in CODES:
-                    raise ValueError("unknown filter " + am.group(2))
-                arms.append((CODES[am.group(2)], am.group(3)))
-        if default is None:
-            # an exhaustive match without a wildcard: every variant must be listed
-            if len(arms) != len(CODES):
-                raise ValueError("no wildcard arm and not all variants listed")
-            default = "true"
-        return X.ctuples(arms), default
+        (params, expr), = X.closures(b, "rposition")
+        v = X.closure_var(params)
+        split, scrut = X.variant_pred(expr, list(CODES))
+        if scrut.lstrip("*&") != v:
+            raise ValueError("the rposition closure does not test its argument")
+        # What matters is the function variant -> bool.  It is listed as (rows, default): default = the value that most
+        # of the variants outside the house list take; a row for every house key and for every other variant that departs
+        # from the default.  An explicit arm that merely repeats the wildcard (or its removal), `|`-merged arms and
+        # `matches!` instead of `match` therefore give the same table.
+        house = [1, 2, 3, 4, 10]
+        rest = [split[n] for n, c in CODES.items() if c not in house]
+        default = rest.count(True) >= rest.count(False)
+        rows = [(c, split[n]) for n, c in CODES.items() if c in house or split[n] != default]
+        rows = X.ordered_by_key(rows, house)
+        return X.ctuples([(c, "true" if t else "false") for c, t in rows]), "true" if default else "false"
     g.attempt([("cache_rpos_arms", "list (N * bool)"), ("cache_rpos_default", "bool")],
               "types.rs:ImageXObject::raw_image_data(rposition)", rpos)
 
@@ -51,7 +49,7 @@ def extract(g, X):
             out.append(CODES[am.group(1)])
         if not out:
             raise ValueError("no codec arms")
-        return X.cl(out)
+        return X.cl(X.ordered(out, [6, 7, 8, 5, 9]))
     g.attempt([("cache_image_codecs", "list N")], "types.rs:ImageXObject::raw_image_data(codecs)", codecs)
 
     def chain():
